@@ -4,9 +4,9 @@
 (* structural values - the published semantics of the Simplicity paper,    *)
 (* plus witness, jet, word (scribed constant) and fail.                    *)
 (*                                                                         *)
-(*   EvS(t, v, W): output of term t on input v; W: witness name ->         *)
-(*   structural value.  SFAIL if the Bit Machine would fail (an assertion, *)
-(*   `fail`, a failing jet).                                               *)
+(*   EvS(t, v, W): output of term t on input v; W = [wit: witness name ->  *)
+(*   structural value, env: transaction environment].  SFAIL if the Bit    *)
+(*   Machine would fail (an assertion, `fail`, a failing jet).             *)
 (***************************************************************************)
 EXTENDS Jets
 
@@ -43,10 +43,10 @@ IOH == Drop(Take(Iden))
 IIH == Drop(Drop(Iden))
 
 \* a jet applied to a structural input
-JetS(name, sv) ==
+JetS(name, sv, env) ==
   LET sig == JetSig(name)
       vs == Reconstruct(sv, TTup(sig.args)).es
-      r == JetEval(name, vs)
+      r == JetEvalEnv(name, vs, env)
   IN IF r.k = "FAIL" THEN SFAIL ELSE ToStruct(r, sig.ret)
 
 RECURSIVE EvS(_, _, _)
@@ -65,8 +65,8 @@ EvS(t, v, W) ==
     [] t.k = "assertl" -> IF v[2][1] = "L" THEN EvS(t.a, SVP(v[2][2], v[3]), W) ELSE SFAIL
     [] t.k = "assertr" -> IF v[2][1] = "R" THEN EvS(t.b, SVP(v[2][2], v[3]), W) ELSE SFAIL
     [] t.k = "fail" -> SFAIL
-    [] t.k = "witness" -> W[t.n]
-    [] t.k = "jet" -> JetS(t.n, v)
+    [] t.k = "witness" -> W.wit[t.n]
+    [] t.k = "jet" -> JetS(t.n, v, W.env)
     [] t.k = "word" -> t.v
     [] t.k = "cannot" -> SFAIL
 
